@@ -437,12 +437,13 @@ class Splicer:
             del self.lines[n_lines:]
             self.fns.pop(gkey, None)
             try:
-                self._do_fn(key, kv, [x for x in sections if x[0] == "spec"], tmpl_file, tmpl_line, decl_only=False, external=str(e))
+                self._do_fn(key, kv, [x for x in sections if x[0] == "spec"], tmpl_file, tmpl_line, decl_only=False, external=str(e),
+                            stub_body=gkey in self.force_external)
             except SpliceError:
                 raise e
             self.log.append("%s: NOT VERIFIED on this tree (emitted as external_body with its contract): %s" % (key, e))
 
-    def _do_fn(self, key: str, kv, sections, tmpl_file, tmpl_line, decl_only=False, external=None):
+    def _do_fn(self, key: str, kv, sections, tmpl_file, tmpl_line, decl_only=False, external=None, stub_body=False):
         sf, it, parent = self.lookup(key)
         if it.kind != "fn":
             raise SpliceError("%s is not a fn" % key)
@@ -807,6 +808,10 @@ class Splicer:
                 all_sections[int(args.strip())] = (slines, sline_no)
         if external:
             info.unverified = external
+            if stub_body:
+                # the body was rejected by the verifier / by rustc in the verification context (a stand-in trait bound, a rewrite
+                # that no longer fits): it is not verified anyway, so it is left out altogether
+                edits.append((toks[body_open].start, toks[body_close].end, "{ unimplemented!() }", "stub", {}))
         for (s, e, rep, rule) in ([] if external else mechanical_rewrites(text, toks, kv.get("r12", self.defaults.get("r12")))):
             meta = {}
             if rule == "R11c":
